@@ -23,6 +23,7 @@ type ProgCase struct {
 	Env   map[string]*m.Type `json:"env,omitempty"`
 	Vals  map[string]*m.Val  `json:"vals,omitempty"`
 	Extra []ref.FunSig       `json:"extra,omitempty"` // harness functions registered after the built-ins
+	Ops   []ref.Op           `json:"ops,omitempty"`   // user-registered operators (on top of the built-in table)
 	Print m.PrintOpt         `json:"print,omitempty"`
 	Stats map[string]int     `json:"stats,omitempty"`
 }
